@@ -433,3 +433,193 @@ Example C12_assign_shared_on_dead_handle_is_outside_the_contract :
   let ops := [XoCreate 0 1 [] false; XoDestroyNow 0 0; XoAssignShared 0 3 5%Z]%N in
   mrun true 1 cis6 ops = Err OobIndex /\ x_viol (xrun 1 cis6 ops) = 1 /\ forallb (alpha_s cis6) ops = true.
 Proof. vm_compute. repeat split; reflexivity. Qed.
+
+(* ================================================================================================================ *)
+(* ---- 7. deferred edits: the refinement with shared components over the alphabet WITH lock / unlock ---------------- *)
+(* proofs/SharedLInv.v, SharedFlush.v, SharedCtl.v, SharedLocked.v, SharedLockedMain.v.  The alphabet alphaL_s is that of
+   C05 (ManagerLockedMain.alphaL_b: lock / unlock, create / destroy / destroyNow / assign / removeComponent recorded from any
+   thread while locked and immediate otherwise, update, write through getComponent) with creation masks inside the 128 bits
+   and no shared types at creation, plus assignShared / removeShared issued while the manager is NOT locked (under lock they
+   are outside the contract: MgrSpec.out_of_contract counts a violation, C12_shared_edit_under_lock_is_outside_the_contract).
+   How it goes: applyCommandPack (Manager.apply_pack) looks the target archetype up under the final component mask AND the
+   shared info of the entity's previous archetype (si_null for a recorded creation), so a pack moves its entity between
+   archetypes with the SAME shared info.  The locked relation LR of C05 is transported along the re-keying of section 6
+   (SharedFrame.rk / SharedInv.xns): recording, lock / unlock counting, marking and cell writes commute with it and the step
+   lemmas of C05 are reused; the unlocked structural and shared operations go through the step lemma of section 6; update()
+   and the flush are followed pack by pack with the invariant SLInv = LInv on the re-keyed state + "the shared values the
+   specification gives a live entity are the values of the shared info of the archetype it is in" (SharedFlush.F_pack_s). *)
+From Mustache.proofs Require Import ManagerLockedMain SharedLocked SharedLockedMain.
+
+(* THE statement of Refine.v for this alphabet, under the hypotheses of C05_locked_refines_on *)
+Theorem C12_deferred_edits_keep_shared : forall typed n cis ops s hs,
+  cis_ok cis -> forallb (alphaL_s cis) ops = true ->
+  mrun typed n cis ops = Ok (s, hs) -> x_viol (xrun n cis ops) = 0 -> (N.of_nat (length hs) < 16777000)%N ->
+  refines_on typed n cis ops = true.
+Proof. exact locked_shared_refines_on. Qed.
+Print Assumptions C12_deferred_edits_keep_shared.
+
+(* handle by handle, also in the middle of a locked section (the recorded edits are not observable yet): a live entity
+   reports the components with the values AND the shared values the specification gives it; a dead one nothing *)
+Theorem C12_deferred_edits_pointwise : forall typed n cis ops s hs,
+  cis_ok cis -> forallb (alphaL_s cis) ops = true ->
+  mrun typed n cis ops = Ok (s, hs) -> x_viol (xrun n cis ops) = 0 -> (N.of_nat (length hs) < 16777000)%N ->
+  length hs = x_count (xrun n cis ops) /\
+  forall k,
+    match find_ent (xrun n cis ops) k with
+    | Some e => exists e', abs_ent s k (nth k hs null_handle) = Some e' /\ ent_match e e' = true
+    | None => abs_ent s k (nth k hs null_handle) = None
+    end.
+Proof. exact locked_shared_refinement. Qed.
+Print Assumptions C12_deferred_edits_pointwise.
+
+(* in the words of the property -- the statement of C12_one_instance_per_value for this alphabet: after the unlock (and at
+   any other moment) the shared info of the archetype a live entity is in is well formed and stores, for every shared type,
+   an instance holding exactly the value the specification gives the entity (recorded assigns / removes of ordinary
+   components moved it between archetypes with the same shared info: nothing dropped, nothing swapped); across all live
+   entities, two stored instances of one type are equal iff their values are *)
+Theorem C12_deferred_one_instance_per_value : forall typed n cis ops s hs,
+  cis_ok cis -> forallb (alphaL_s cis) ops = true ->
+  mrun typed n cis ops = Ok (s, hs) -> x_viol (xrun n cis ops) = 0 -> (N.of_nat (length hs) < 16777000)%N ->
+  (forall k e, find_ent (xrun n cis ops) k = Some e ->
+     si_wf (shared_of s (nth k hs null_handle)) /\
+     forall sid v, In (sid, v) (e_shared e) <-> exists i, si_get (shared_of s (nth k hs null_handle)) sid = Some i /\ inst_value s i = v) /\
+  (forall k1 e1 k2 e2 sid i1 i2, find_ent (xrun n cis ops) k1 = Some e1 -> find_ent (xrun n cis ops) k2 = Some e2 ->
+     si_get (shared_of s (nth k1 hs null_handle)) sid = Some i1 -> si_get (shared_of s (nth k2 hs null_handle)) sid = Some i2 ->
+     (inst_value s i1 = inst_value s i2 <-> i1 = i2)).
+Proof. exact locked_shared_instances. Qed.
+Print Assumptions C12_deferred_one_instance_per_value.
+
+(* the flush itself: from related states (SharedLocked.SLR: the relation of C05 on the re-keyed states, every archetype's
+   shared info well formed / typed / pooled, every live entity's shared values those of its archetype, recorded creation
+   masks inside the 128 bits) the outermost unlock reaches the state the specification's x_flush reaches, and the relation
+   holds again -- provided the flush does not end in Err and no command of it leaves the contract *)
+Theorem C12_flush_keeps_shared : forall cis s hs x s',
+  SLR cis s hs x -> cis_ok cis -> (N.of_nat (length hs) < 16777000)%N -> x_viol (x_flush (xw_lock x 0)) = x_viol x ->
+  flush (set_lock s 0) = Ok s' -> SLR cis s' hs (x_flush (xw_lock x 0)).
+Proof. exact flush_faithful_s. Qed.
+Print Assumptions C12_flush_keeps_shared.
+
+(* the relation holds after every script of the alphabet (the three theorems above read the world off it) *)
+Theorem C12_deferred_run_related : forall typed n cis ops s hs,
+  cis_ok cis -> forallb (alphaL_s cis) ops = true ->
+  mrun typed n cis ops = Ok (s, hs) -> x_viol (xrun n cis ops) = 0 -> (N.of_nat (length hs) < 16777000)%N ->
+  SLR cis s hs (xrun n cis ops).
+Proof. exact locked_shared_run_related. Qed.
+Print Assumptions C12_deferred_run_related.
+
+(* the alphabets of section 6 (unlocked, with shared components) and of C05 (locked, creation masks inside the 128 bits)
+   are parts of this one *)
+Theorem C12_deferred_alphabet_covers : forall cis o,
+  (alpha_s cis o = true -> alphaL_s cis o = true) /\
+  (alphaL_b cis o = true -> (forall tid m sids via, o = XoCreate tid m sids via -> DepsClosure.lowmb m = true) -> alphaL_s cis o = true).
+Proof.
+  intros cis o. split; [apply alpha_s_alphaL|]. intros Ha Hc. destruct o; simpl in *; try exact Ha; try discriminate.
+  rewrite Ha. simpl. apply (Hc tid m sids via_arch eq_refl).
+Qed.
+Print Assumptions C12_deferred_alphabet_covers.
+
+(* the hypotheses are satisfiable: entities 0 and 1 share the value 5 of shared type 3 (one instance), entity 0 also holds
+   the value 1 of type 7.  Under lock (nested once) thread 1 records assign(1) and remove(0) on entity 0 and the creation of
+   entity 2 through its archetype, thread 2 records assign(2) on entity 0 and destroyNow of entity 1; a destroy() of a
+   handle never issued is recorded by thread 0.  The outermost unlock moves entity 0 through the archetypes
+   {0} -> {1} -> {1, 2} (three archetypes, all with the shared info {3 -> instance 0, 7 -> instance 2}), destroys entity 1,
+   creates entity 2; then entity 2 is given the value 5 of type 3 and receives the instance entity 0 still holds *)
+Definition script_deferred : list xop :=
+  [XoCreate 0 1 [] false; XoCreate 0 1 [] true; XoSet 0 0 41%Z;
+   XoAssignShared 0 3 5%Z; XoAssignShared 1 3 5%Z; XoAssignShared 0 7 1%Z;
+   XoLock;
+   XoAssign 1 0 1 (Some 7%Z); XoRemove 1 0 0 true; XoAssign 2 0 2 None; XoDestroyNow 2 1; XoCreate 1 4 [] true; XoLock; XoDestroy 0 5; XoUnlock;
+   XoUnlock;
+   XoAssignShared 2 3 5%Z; XoUpdate]%N.
+
+Example C12_deferred_nonvacuous :
+  cis_ok cis6 /\ forallb (alphaL_s cis6) script_deferred = true /\ x_viol (xrun 4 cis6 script_deferred) = 0 /\
+  (forall typed, exists s hs, mrun typed 4 cis6 script_deferred = Ok (s, hs) /\ (N.of_nat (length hs) < 16777000)%N /\
+                              map (is_valid s) hs = [true; false; true]) /\
+  (* before the outermost unlock: nothing of the recorded edits is visible, the buffers of threads 1 and 2 hold them *)
+  map (fun e => (e_k e, map fst (e_comps e), e_shared e)) (x_ents (xrun 4 cis6 (firstn 15 script_deferred))) =
+    [(1, [0], [(3, 5%Z)]); (0, [0], [(3, 5%Z); (7, 1%Z)])] /\
+  x_bufs (xrun 4 cis6 (firstn 15 script_deferred)) =
+    [[]; [XAssign 0 1 (Some 7%Z); XRemove 0 0; XCreate 2 4%N []]; [XAssign 0 2 None; XDestroyNow 1]; []] /\
+  (* at the end *)
+  map (fun e => (e_k e, map fst (e_comps e), e_shared e)) (x_ents (xrun 4 cis6 script_deferred)) =
+    [(0, [1; 2], [(3, 5%Z); (7, 1%Z)]); (2, [2], [(3, 5%Z)])].
+Proof.
+  split; [exact cis6_ok|]. split; [vm_compute; reflexivity|]. split; [vm_compute; reflexivity|]. split.
+  - intros typed. destruct typed; eexists; eexists; (split; [vm_compute; reflexivity|]); split; vm_compute; reflexivity.
+  - repeat split; vm_compute; reflexivity.
+Qed.
+
+(* the theorems applied (not evaluated) to the script *)
+Example C12_deferred_on_script : forall typed, refines_on typed 4 cis6 script_deferred = true.
+Proof.
+  intros typed. destruct C12_deferred_nonvacuous as (Hok & Ha & Hv & Hrun & _). destruct (Hrun typed) as (s & hs & Hr & Hb & _).
+  exact (C12_deferred_edits_keep_shared typed 4 cis6 script_deferred s hs Hok Ha Hr Hv Hb).
+Qed.
+
+(* ... and evaluated: values and instance identity after the unlock.  Entity 0 went through three archetypes and still reports
+   instance 0 (value 5) for type 3 and instance 2 (value 1) for type 7; entity 2, created by the flush, reports the very same
+   instance 0 for type 3 after its assignShared; entity 1 is gone; the pool of type 3 holds ONE instance although four
+   instances of that type were constructed; before the unlock entities 0 and 1 shared instance 0 *)
+Example C12_deferred_values_and_instances :
+  match mrun true 4 cis6 (firstn 15 script_deferred), mrun true 4 cis6 script_deferred with
+  | Ok (s0, hs0), Ok (s, hs) =>
+    si_get (shared_of s0 (nth 0 hs0 null_handle)) 3 = Some 0 /\ si_get (shared_of s0 (nth 1 hs0 null_handle)) 3 = Some 0 /\
+    si_get (shared_of s0 (nth 0 hs0 null_handle)) 7 = Some 2 /\
+    map (fun a => am_mask a) (archs s0) = [1; 1; 1; 4]%N /\
+    (* after *)
+    si_get (shared_of s (nth 0 hs null_handle)) 3 = Some 0 /\ si_get (shared_of s (nth 0 hs null_handle)) 7 = Some 2 /\
+    si_get (shared_of s (nth 2 hs null_handle)) 3 = Some 0 /\ si_get (shared_of s (nth 2 hs null_handle)) 7 = None /\
+    inst_value s 0 = 5%Z /\ inst_value s 2 = 1%Z /\ pool_of s 3 = [0] /\ pool_of s 7 = [2] /\ length (insts s) = 4 /\
+    is_valid s (nth 1 hs null_handle) = false /\
+    (* the three archetypes entity 0 passed through carry the same shared info; it now sits in the last one *)
+    map (fun a => (N.to_nat (am_mask a), si_data (am_shared a), length (am_ents a))) (archs s) =
+      [(1, [], 0); (1, [0], 0); (1, [0; 2], 0); (4, [], 0); (2, [0; 2], 0); (6, [0; 2], 1); (4, [0], 1)] /\
+    archs_ok (Ok (s, hs)) = true
+  | _, _ => False
+  end.
+Proof. vm_compute. repeat split; reflexivity. Qed.
+
+(* the hypotheses of C12_deferred_one_instance_per_value inside the quantifiers: entities 0 and 2 are alive at the end and
+   both store an instance for type 3 *)
+Example C12_deferred_one_instance_nonvacuous :
+  (exists e0 e2, find_ent (xrun 4 cis6 script_deferred) 0 = Some e0 /\ find_ent (xrun 4 cis6 script_deferred) 2 = Some e2 /\
+                 In (3, 5%Z) (e_shared e0) /\ In (3, 5%Z) (e_shared e2)) /\
+  match mrun true 4 cis6 script_deferred with
+  | Ok (s, hs) => exists i, si_get (shared_of s (nth 0 hs null_handle)) 3 = Some i /\ si_get (shared_of s (nth 2 hs null_handle)) 3 = Some i
+  | Err _ => False
+  end.
+Proof. split; [eexists; eexists; vm_compute; repeat split; auto|vm_compute; eexists; split; reflexivity]. Qed.
+
+(* the hypotheses of C12_flush_keeps_shared are satisfiable: the state before the outermost unlock is related (by
+   C12_deferred_run_related), its flush succeeds and stays inside the contract *)
+Example C12_flush_keeps_shared_nonvacuous :
+  match mrun true 4 cis6 (firstn 15 script_deferred) with
+  | Ok (s, hs) =>
+    SLR cis6 s hs (xrun 4 cis6 (firstn 15 script_deferred)) /\ (N.of_nat (length hs) < 16777000)%N /\
+    x_viol (x_flush (xw_lock (xrun 4 cis6 (firstn 15 script_deferred)) 0)) = x_viol (xrun 4 cis6 (firstn 15 script_deferred)) /\
+    (exists s', flush (set_lock s 0) = Ok s') /\ lockc s = 1
+  | Err _ => False
+  end.
+Proof.
+  destruct (mrun true 4 cis6 (firstn 15 script_deferred)) as [(s, hs)|er] eqn:Hr; [|vm_compute in Hr; discriminate].
+  assert (Hb : (N.of_nat (length hs) < 16777000)%N) by (vm_compute in Hr; inversion Hr; subst; vm_compute; reflexivity).
+  split; [|split; [exact Hb|]].
+  - apply (C12_deferred_run_related true 4 cis6 (firstn 15 script_deferred) s hs cis6_ok); [vm_compute; reflexivity|exact Hr|vm_compute; reflexivity|exact Hb].
+  - vm_compute in Hr. inversion Hr; subst s hs. split; [vm_compute; reflexivity|]. split; [eexists; vm_compute; reflexivity|vm_compute; reflexivity].
+Qed.
+
+(* assignShared / removeShared under lock are outside the contract: the specification counts a violation *)
+Example C12_shared_edit_under_lock_is_outside_the_contract :
+  let ops1 := [XoCreate 0 1 [] false; XoLock; XoAssignShared 0 3 5%Z]%N in
+  let ops2 := [XoCreate 0 1 [] false; XoAssignShared 0 3 5%Z; XoLock; XoRemoveShared 0 3]%N in
+  x_viol (xrun 4 cis6 ops1) = 1 /\ x_viol (xrun 4 cis6 ops2) = 1 /\
+  forallb (alphaL_s cis6) ops1 = true /\ forallb (alphaL_s cis6) ops2 = true.
+Proof. vm_compute. repeat split; reflexivity. Qed.
+
+(* why "the model run does not end in Err" stays a hypothesis (as in C05): the open finding of C05 -- a pack that assigns
+   and removes one component ends in Err NullDeref -- is independent of shared components *)
+Example C12_deferred_ok_hypothesis_needed :
+  let ops := [XoCreate 0 1 [] false; XoAssignShared 0 3 5%Z; XoLock; XoAssign 0 0 1 (Some 5%Z); XoRemove 0 0 1 true; XoUnlock]%N in
+  forallb (alphaL_s cis6) ops = true /\ x_viol (xrun 4 cis6 ops) = 0 /\ mrun true 4 cis6 ops = Err NullDeref.
+Proof. vm_compute. repeat split; reflexivity. Qed.
